@@ -34,6 +34,50 @@ CHECKS = [
     mapper('C19', 'Same exploration; strict press/release fold over the concatenated outputs of all steps and of release_all batches issued from every reachable configuration.'),
 ]
 
+LOOP_NOTE = ('Trusted: MIR text = program; mirsym\'s MIR semantics and std models; the Driver trait is the boundary (RealDriver, mio, nix are not encoded); '
+             'environment contract: edge-triggered readiness, TimedOut only spuriously-when-idle or after the requested time, non-decreasing clock; '
+             'bounds per spec (key events E, tablet events T, batch B, wake-ups W) listed in the evidence; no subsumption, so no claim beyond those bounds; '
+             'violations are replayed natively with a scripted driver against the real loop before being reported.')
+
+def loop(pid, text):
+    return {
+        'property_id': pid,
+        'quick_cmd': './check %s --tier quick' % pid,
+        'thorough_cmd': './check %s --tier thorough' % pid,
+        'evidence_file': 'evidence/%s.json' % pid,
+        'replay_cmd_template': './check %s --replay {path}' % pid,
+        'engine': 'mirsym',
+        'level_claimed': {'category': 'model_checking', 'text': text, 'design_ref': 'DESIGN.md 7/' + pid},
+        'level_note': LOOP_NOTE,
+        'technique': 'symbolic execution of the real MIR of do_remapping_loop_one_device (real mapper underneath) against a nondeterministic Driver environment: symbolic schedules, symbolic clock/delay/interval decided by z3 validity queries, reference = real mapper MIR on the read order; native replay with a scripted driver',
+    }
+
+def other(pid, text, note, technique):
+    return {
+        'property_id': pid,
+        'quick_cmd': './check %s --tier quick' % pid,
+        'thorough_cmd': './check %s --tier thorough' % pid,
+        'evidence_file': 'evidence/%s.json' % pid,
+        'replay_cmd_template': './check %s --replay {path}' % pid,
+        'engine': 'mirsym',
+        'level_claimed': {'category': 'other', 'text': text, 'design_ref': 'DESIGN.md 7/' + pid},
+        'level_note': note,
+        'technique': technique,
+    }
+
+CHECKS += [
+    loop('C10', 'Bounded symbolic exploration of all delivery schedules (batching, late arrivals, spurious time-outs, interruption, device gone at every position) of symbolic key histories; writes compared with the real mapper run sequentially; queues must be empty at every poll.'),
+    loop('C11', 'Same exploration with a symbolic non-decreasing clock and symbolic delay/interval: each requested time-out must equal the schedule t0+delay+j*interval-now (validity query), chords exactly once per genuine time-out, content/transience checked, cancellation on every key/tablet event.'),
+    loop('C12', 'Same exploration with tablet on/off events anywhere (also in the same wake-up as key events, in either device order, and while a repeat is pending).'),
+    loop('C20', 'Same exploration with a failure injected at each individual driver call of every explored schedule; the loop must return that error and write nothing afterwards.'),
+    other('C17', 'Bounded symbolic execution with a reference oracle: every character of the pattern is a symbol over all non-NUL Unicode scalar values; the produced unit text is decoded by a symbolic model of systemd\'s ExecStart parsing and every decoded byte compared by validity queries (all single characters, all pairs, two-pattern lists; thorough: triples, three patterns).',
+          'Trusted: the model of systemd\'s parser (oracle), the fmt::Arguments byte-template model (validated against the native build on random patterns every run), MIR text = program.',
+          'symbolic execution of the real MIR of build_service_text/build_exclude_text/systemd_arg_escape/escape_one_char incl. format! templates on symbolic Unicode strings; z3 validity queries against a symbolic systemd decoder; native replay'),
+    other('C18', 'Bounded symbolic execution with a reference oracle: batches of 0..3 (thorough 0..5) events with every key a 32-bit symbol over the 484 codes, every output byte checked by a validity query; reader over fully symbolic 24-byte records; round trip reader(writer(batch)).',
+          'Trusted: input_event layout of x86-64/aarch64 Linux (24 bytes, little endian; size checked natively), read/write stubs as byte channels, summary of the derived FromPrimitive (established by running its MIR on 0..1023), MIR text = program.',
+          'symbolic execution of the real MIR of DevInputWriter::send, StructSerializer::add_*, DevInputReader::next with nix read/write stubbed; z3 validity queries per byte/record; native replay through a pipe'),
+]
+
 ALL = ['C%02d' % i for i in range(1, 21)]
 claimed = {c['property_id'] for c in CHECKS}
 NA = [{'property_id': p, 'reason': 'check under construction in this round (engine: mirsym); not claimed until its harness is committed'} for p in ALL if p not in claimed]
